@@ -240,6 +240,12 @@ class Worker(twisted.internet.protocol.Protocol):
                         self.transport.loseConnection()
                         pass
                     pass
+                if self.transport.disconnecting:
+                    # the request made us hang up: disregard whatever
+                    # followed it in the same packet because it would
+                    # never have been delivered had it arrived in its
+                    # own packet
+                    break
                 pass
 
             length = (
